@@ -158,7 +158,11 @@ func runC17(c *runCtx) {
 	for rep := 0; rep < R; rep++ {
 		for _, f := range fields {
 			for _, user := range []bool{false, true} {
-				for _, valid := range []bool{true, false} {
+				for variant := 0; variant < 3; variant++ {
+					// 0: valid arguments; 1: an id that matches nothing; 2: arguments that resolve but must be
+					// refused (a target prefix shared by several comments, a label or title that is empty once
+					// cleaned): whatever the answer, an error means that nothing changed
+					valid, edge := variant == 0, variant == 2
 					r := c.rng.fork()
 					// build the input object from the introspected input type
 					snap := b0.Snapshot()
@@ -179,18 +183,23 @@ func runC17(c *runCtx) {
 							continue
 						case "prefix":
 							val = fmt.Sprintf("%q", string(b0.Id())[:10])
-							if !valid {
+							if !valid && !edge {
 								val = `"zzzzzz"`
 							}
 						case "targetprefix", "target":
 							val = fmt.Sprintf("%q", string(snap.Comments[len(snap.Comments)-1].CombinedId())[:12])
-							if !valid {
+							if edge {
+								// the first character of a combined id comes from the bug id: every comment of the bug matches
+								val = fmt.Sprintf("%q", string(snap.Comments[len(snap.Comments)-1].CombinedId())[:1])
+							} else if !valid {
 								val = `"zzzzzz"`
 							}
 						case "title":
 							sent["title"] = "title " + randHexId(r, 6)
 							val = fmt.Sprintf("%q", sent["title"])
-							if !valid {
+							if edge {
+								val = pickOne(r, []string{`"  "`, `"\t"`, `"a\nb"`})
+							} else if !valid {
 								val = `""`
 							}
 						case "message":
@@ -199,6 +208,9 @@ func runC17(c *runCtx) {
 						case "added":
 							sent["added"] = "label" + randHexId(r, 3)
 							val = fmt.Sprintf("[%q]", sent["added"])
+							if edge {
+								val = pickOne(r, []string{`["  "]`, `["ok` + randHexId(r, 2) + `", ""]`, `["two\nlines"]`})
+							}
 						case "removed":
 							val = `[]`
 						default:
@@ -226,7 +238,12 @@ func runC17(c *runCtx) {
 					changed := before != after
 					// which call of the program fails in this case: an invalid prefix/target fails the first lookup
 					failAt := -1
-					if !valid && f.Name != "newBug" {
+					if edge {
+						failAt = -1
+						if f.Name == "editComment" {
+							failAt = 2 // the ambiguous target is refused by the lookup, before the gate
+						}
+					} else if !valid && f.Name != "newBug" {
 						failAt = 0
 						if f.Name == "editComment" {
 							failAt = 2
@@ -234,10 +251,18 @@ func runC17(c *runCtx) {
 					} else if !valid && f.Name == "newBug" && user {
 						failAt = firstIdx("newBug", "mutate") // empty title: NewRaw refuses
 					}
-					c.emit(map[string]any{"cmd": "gate", "resolver": f.Name, "user": user, "steps": progOf[f.Name], "failAt": failAt, "query": trunc(q, 300)},
-						map[string]any{"outcome": outcome, "changed": changed})
-					c.count(fmt.Sprintf("%s/user=%v/valid=%v=%s", "mutation", user, valid, outcome))
-					c.nontrivial(f.Name + fmt.Sprint(user, valid))
+					if !edge || !user {
+						c.emit(map[string]any{"cmd": "gate", "resolver": f.Name, "user": user, "steps": progOf[f.Name], "failAt": failAt, "query": trunc(q, 300)},
+							map[string]any{"outcome": outcome, "changed": changed})
+					}
+					c.count(fmt.Sprintf("%s/user=%v/variant=%d=%s", "mutation", user, variant, outcome))
+					c.nontrivial(f.Name + fmt.Sprint(user, variant))
+					if user && hasErr && changed {
+						c.violation(c.nCases, "C17/changed-by-refused-mutation", fmt.Sprintf("mutation %s answered with an error and still changed the repository or the cache (an operation left staged, a ref moved): %s -> %s", f.Name, trunc(q, 200), trunc(rawRes, 200)), map[string]any{"before": before, "after": after})
+					}
+					if user && edge && !hasErr && (f.Name == "editComment") {
+						c.violation(c.nCases, "C17/ambiguous-target-accepted", fmt.Sprintf("mutation %s with a target prefix shared by %d comments was carried out: %s", f.Name, len(snap.Comments), trunc(q, 200)), nil)
+					}
 					if _, ok := progOf[f.Name]; !ok {
 						c.violation(c.nCases, "C17/unknown-mutation", fmt.Sprintf("the served schema has a mutation %q that the extracted resolver table does not contain", f.Name), nil)
 					}
